@@ -14,6 +14,7 @@ import ButlerModel.Driver.C07
 import ButlerModel.Driver.C09
 import ButlerModel.Driver.C01
 import ButlerModel.Driver.C08
+import ButlerModel.Driver.C19
 /-! Line-protocol driver: one request per line on stdin, one reply per line on stdout.
 The first token selects the model; stateful models keep their state in `DState`. -/
 
@@ -28,6 +29,7 @@ structure DState where
   art : Artifacts.S := {}
   store : Store.S := {}
   crash : Driver.C08.St := {}
+  xfer : Transfer.Repo := {}
 
 def step (st : DState) (line : String) : DState × String :=
   let toks := (line.splitOn " ").filter (· ≠ "")
@@ -46,6 +48,7 @@ def step (st : DState) (line : String) : DState × String :=
   | "did" :: rest => let (c, out) := Driver.C13.handle st.did rest; ({ st with did := c }, out)
   | "reg" :: rest => let (c, out) := Driver.C02.handle st.reg rest; ({ st with reg := c }, out)
   | "path" :: rest => (st, Driver.C09.handlePath rest)
+  | "xfer" :: rest => let (c, out) := Driver.C19.handle st.xfer rest; ({ st with xfer := c }, out)
   | "crash" :: rest => let (c, out) := Driver.C08.handle st.crash rest; ({ st with crash := c }, out)
   | "st" :: rest => let (c, out) := Driver.C01.handle st.store rest; ({ st with store := c }, out)
   | "art" :: rest => let (c, out) := Driver.C09.handle st.art rest; ({ st with art := c }, out)
